@@ -65,6 +65,7 @@ type OracleSet struct {
 	ClassSelect     bool // C08: contributing ingresses == documented selection
 	ExtAuth         bool // C18: protected paths are intercepted or denied
 	OrderIndep      bool // C06: permuted fresh pipelines == canonical fresh pipeline
+	CrossNS         bool // C09: denied cross-namespace references have no influence
 	Property        string
 }
 
@@ -263,8 +264,12 @@ func (r *Run) afterReconcile(informersLagging bool) {
 	if or.FreshEveryRec && !r.cur.failed && !informersLagging && !r.kube.Pending() && !r.kube.fullEventPending {
 		r.checkFresh("C05", "every-update")
 	}
-	if or.EffectiveStep && !r.cur.failed && !r.reloadPending && r.ha.Loaded != nil && !r.cur.reloadedSync {
-		// applied (or judged a no-op) without a reload: running state must equal the files
+	if or.EffectiveStep && !r.cur.failed && !r.reloadPending && r.ha.Loaded != nil && !r.cur.reloadedSync &&
+		!(r.cur.noop && (informersLagging || r.kube.Pending())) {
+		// applied (or judged a no-op) without a reload: running state must equal the files.
+		// Not judged: a no-op that ran while an informer store was ahead of its notifications;
+		// a secret read for a declaration that is then discarded rewrites the certificate file
+		// early, and the update that notification brings is the one that applies it.
 		r.checkEffective(or.Property, "after-dynamic-update")
 	}
 	if or.Capacity && !r.cur.failed && r.capLoaded != nil {
@@ -437,6 +442,9 @@ func (r *Run) syncPoint(note string) {
 	}
 	if r.or.OrderIndep {
 		r.checkOrderIndependence()
+	}
+	if r.or.CrossNS {
+		r.checkCrossNamespace()
 	}
 	if r.or.Routing {
 		r.checkRouting()
